@@ -76,7 +76,7 @@ type Result struct {
 	Items    int     `json:"items"`
 	DurUS    int64   `json:"dur_us"`
 	SleepNS  int64   `json:"sleep_ns,omitempty"` // longest Nanosleep the host requested
-	DirOrder string  `json:"dir_order,omitempty"` // states dir/hole: name lengths of the mounted directory and of d/ in host listing order ("1,5,4 1")
+	DirOrder string  `json:"dir_order,omitempty"` // states dir/hole/dirread: entries (hexname:filetype) of the mounted directory and of d/ in host listing order
 }
 
 const (
@@ -351,7 +351,7 @@ func (e *childEnv) exec(c Case) Result {
 	return res
 }
 
-// listOrder: the name lengths of a host directory in the order the host lists it (not sorted).
+// listOrder: the entries of a host directory in the order the host lists it (not sorted), as `hexname:wasi-filetype`.
 func listOrder(dir string) string {
 	f, err := os.Open(dir)
 	if err != nil {
@@ -367,7 +367,18 @@ func listOrder(dir string) string {
 	}
 	ls := make([]string, len(names))
 	for i, n := range names {
-		ls[i] = fmt.Sprint(len(n))
+		ty := 0
+		if st, err := os.Lstat(filepath.Join(dir, n)); err == nil {
+			switch {
+			case st.Mode().IsRegular():
+				ty = 4
+			case st.Mode().IsDir():
+				ty = 3
+			case st.Mode()&os.ModeSymlink != 0:
+				ty = 7
+			}
+		}
+		ls[i] = fmt.Sprintf("%s:%d", hex.EncodeToString([]byte(n)), ty)
 	}
 	return strings.Join(ls, ",")
 }
